@@ -25,6 +25,7 @@ import (
 	"sort"
 	"strings"
 	"sync"
+	"syscall"
 
 	"github.com/fsnotify/fsnotify"
 	oci "github.com/opencontainers/runtime-spec/specs-go"
@@ -228,7 +229,9 @@ func (c *Cache) unwatchedDir(dir string) bool {
 	if !c.autoRefresh || c.watch.watcher == nil {
 		return false
 	}
-	return errors.Is(c.dirErrors[dir], fs.ErrNotExist)
+	err := c.dirErrors[dir]
+	// no such directory, or not below a directory
+	return errors.Is(err, fs.ErrNotExist) || errors.Is(err, syscall.ENOTDIR)
 }
 
 // RefreshIfRequired triggers a refresh if necessary.
